@@ -1,1 +1,2 @@
-
+int l2func_5(void){ return 68; }
+void *addr_l2func_5(void){ return (void*)l2func_5; }
